@@ -43,7 +43,7 @@ type c36Vec struct {
 }
 
 var c36Peers = []string{"P1", "P2", "P3"}
-var c36Statics = map[string][]int{"L1": {31}, "L2": {32}, "P2": {33, 4, 6, 7, 3}, "P3": {34, 7, 5, 8}}
+var c36Statics = map[string][]int{"L1": {31}, "L2": {32}, "P2": {33, 4, 6, 7, 3, 44}, "P3": {34, 7, 5, 8, 44, 46}}
 
 type c36World struct {
 	t       *testing.T
@@ -373,7 +373,7 @@ func TestVerif_C36(t *testing.T) {
 		traces = 600
 	}
 	srcs := []string{"reply", "reply", "update", "punch", "learn", "roam", "dns", "calc", "block", "delete"}
-	pool := []int{1, 2, 3, 4, 5, 6, 7, 8, 9, 40, 41, 42, 43, 11, 12, 13, 14, 15, 16, 17, 18, 19, 20, 21, 22}
+	pool := []int{1, 2, 3, 4, 5, 6, 7, 8, 9, 40, 41, 42, 43, 44, 44, 45, 46, 7, 11, 12, 13, 14, 15, 16, 17, 18, 19, 20, 21, 22}
 	for i := 0; i < traces; i++ {
 		am := rnd.Intn(2) == 0
 		lhBubble(t, func(t *testing.T) {
